@@ -152,9 +152,9 @@ Section Slots.
   Qed.
 
   (* ---- initial state ---- *)
-  Variable trunc : N -> Z.
+  Variable of_int : Z -> N.
 
-  Lemma get_initial_value (f : feature N) : get_initial N f = Ok (SMS.initial_value N f).
+  Lemma get_initial_value (f : feature N) : get_initial N of_int f = Ok (SMS.initial_value N of_int f).
   Proof. destruct f as [u i|u i|u i|ty un [i|i|i|b]]; reflexivity. Qed.
 
   Lemma collect_res_ok {X Y} (g : X -> Y) (h : X -> res Y) (l : list X) :
@@ -164,7 +164,8 @@ Section Slots.
     rewrite H, IH. reflexivity.
   Qed.
 
-  Lemma initial_state_abs sm (s : entries) : SAbs sm s -> initial_state N sm = Ok (SMS.initial_state N s).
+  Lemma initial_state_abs sm (s : entries) :
+    SAbs sm s -> initial_state N of_int sm = Ok (SMS.initial_state N of_int s).
   Proof.
     intros Ha. unfold initial_state, SMS.initial_state. rewrite (abs_iter sm s Ha).
     apply collect_res_ok. intros x. apply get_initial_value.
@@ -173,15 +174,15 @@ Section Slots.
   Theorem initial_state_lemma cfg (s0 : entries) tm am user sm :
     SAbs cfg s0 -> NoDup (map fst (user_entries user)) ->
     build_search_instance cfg tm am user = Ok sm ->
-    exists st, initial_state N sm = Ok st
+    exists st, initial_state N of_int sm = Ok st
       /\ List.length st = len sm
       /\ (forall k i, get_index sm k = Some i ->
             exists f, SMS.final_feature s0 tm am (user_entries user) k = Some f
-                      /\ nth_error st i = Some (SMS.initial_value N f)).
+                      /\ nth_error st i = Some (SMS.initial_value N of_int f)).
   Proof.
     intros Habs Hndu Hb. destruct (build_ok_inv cfg s0 tm am user sm Habs Hndu Hb) as [s' [Hs Ha]].
     destruct (spec_shape s0 tm am user s' Hs (abs_nodup cfg s0 Habs)) as (Hk & Hnd & Hg & _).
-    exists (SMS.initial_state N s'). split; [apply initial_state_abs; exact Ha|].
+    exists (SMS.initial_state N of_int s'). split; [apply initial_state_abs; exact Ha|].
     split; [unfold SMS.initial_state, len; rewrite map_length, (abs_len sm s' Ha); reflexivity|].
     intros k i Hi. unfold get_index in Hi. rewrite (abs_get_index String.eqb kspec sm s' k Ha) in Hi.
     destruct (s_index_nth_fwd String.eqb kspec s' k i Hi) as [f Hf]. exists f. split.
